@@ -20,6 +20,7 @@ REGISTRY = {
     "C07": "invariance",
     "C08": "constructors",
     "C09": "metric",
+    "C10": "constructions",
     "C12": "purity",
     "C16": "membership",
     "C17": "measures",
